@@ -233,6 +233,22 @@ fn chain_mutation(rng: &mut Rng, v: Version, img: &mut Vec<u8>) -> String {
     if cands.is_empty() {
         return noop();
     }
+    // cross-link: a stream entry names a sector of another chain (a metadata chain or another
+    // stream) as its own first sector; open follows no stream chain, so it cannot notice
+    let stream_offs: Vec<usize> = entries.iter().filter(|e| e.1 == 2).map(|e| e.0).collect();
+    if !stream_offs.is_empty() && rng.chance(1, 3) {
+        let off = stream_offs[rng.below(stream_offs.len() as u64) as usize];
+        let (label, chain, _) = cands[rng.below(cands.len() as u64) as usize].clone();
+        let target = if rng.chance(2, 3) { chain[0] } else { chain[rng.below(chain.len() as u64) as usize] };
+        img[off + 116..off + 120].copy_from_slice(&(target as u32).to_le_bytes());
+        let mut what = format!("stream entry at {} starts in the chain of {} (sector {})", off, label, target);
+        if rng.chance(1, 2) {
+            let n = *rng.pick(&[4096u64, 5120, 9000]);
+            img[off + 120..off + 128].copy_from_slice(&n.to_le_bytes());
+            what.push_str(&format!(", length {}", n));
+        }
+        return what;
+    }
     let ci = rng.below(cands.len() as u64) as usize;
     let other = cands[rng.below(cands.len() as u64) as usize].1.clone();
     let (label, chain, mini) = cands[ci].clone();
@@ -350,6 +366,14 @@ fn rw_ops(rng: &mut Rng, live: &mut Live) -> Vec<Op> {
     if rng.chance(1, 2) {
         ops.push(Op::RemoveStorageAll("/d".into()));
     }
+    for (p, is_stream) in paths.iter() {
+        if !*is_stream && p != "/" && rng.chance(1, 2) {
+            ops.push(Op::RemoveStorage(p.clone()));
+            ops.push(Op::RemoveStorage(p.clone()));
+        }
+    }
+    ops.push(Op::Exists("/zz".into()));
+    ops.push(Op::Exists("/a".into()));
     ops.push(Op::RemoveStorageAll("/".into()));
     ops.push(Op::Walk);
     ops
